@@ -3,35 +3,36 @@
 import json
 ALL=[f"C{i:02d}" for i in range(1,16)]
 T="property-based testing over choice tapes (proptest TestRunner, sharded, VERIF_SEED) "
+F=" Thorough tier adds a coverage-guided libFuzzer campaign over choice tapes (fuzz/tapes) with the same oracle inside the target."
 CHECKS={
- "C01": dict(cat="exploration", technique=T+"+ exhaustive operator grid: AST-first generator, independent printer, oracle = expected library",
+ "C01": dict(cat="exploration", technique=T+"+ exhaustive operator grid, declaration grid and text-first census grid: AST-first generator, independent printer, oracle = expected library; text-first cells: every identifier written is an Id of the library"+F+"",
    text="Generated programs of the reference grammar (every production the parser implements, alternative spellings of the same meaning) must parse to exactly the library the generator built; all 225 operator pairs x both association shapes and 225 triples enumerated. Finds dropped / reordered / re-associated / renamed constructs; cannot prove absence.",
    note="Trusted: the harness' printer and AST generator (second implementation of IEC Annex B) and the dsl's derived PartialEq (spans ignored; identifier case checked separately by a visitor walk). Information the dsl types cannot represent is not judged.", ref="DESIGN.md §3 C01"),
- "C02": dict(cat="fault_enumeration", technique=T+": valid-by-construction generator + generation-time fault planter (16 rule kinds, every site), oracle = expected verdict / code",
+ "C02": dict(cat="fault_enumeration", technique=T+": valid-by-construction generator + generation-time fault planter (16 rule kinds, every site), oracle = expected verdict / code"+F+"",
    text="Valid units must analyse Ok; the same unit with exactly one planted documented Fails shape (every applicable site for small units) must fail with the rule's published code; double faults must fail.",
    note="Trusted: the harness' model of which programs satisfy the documented rules (conservative: P9999 constructs avoided). P9999-only outcomes are trivial, not successes.", ref="DESIGN.md §3 C02"),
- "C03": dict(cat="fault_enumeration", technique=T+": faulty unit x companion files, all file orders, same-name companions; oracle = set must fail",
+ "C03": dict(cat="fault_enumeration", technique=T+": faulty unit x companion files, all file orders, same-name companions; oracle = set must fail"+F+"",
    text="Every placement of a file that does not tokenize / parse or holds a self-contained planted fault among 0-4 valid companions (incl. companions that re-declare the faulty name) in every file order must make Project::semantic and `ironplcc check` fail.",
    note="Trusted: F alone fails (verified per case). Faults whose diagnosis needs other declarations are exempt as in the property.", ref="DESIGN.md §3 C03"),
  "C04": dict(cat="exploration", technique=T+"in worker processes + libFuzzer target (thorough): bytes, token soup, token-mutated programs, extreme literals; oracle = no panic / abort / CPU overrun",
    text="Inputs <= 64 KiB / nesting <= 12 run through tokenize, parse, analyze, render, re-parse in worker processes: a panic, a death by signal or > 20 CPU s (3/3 reproduction) is a violation. Thorough adds a coverage-guided libFuzzer campaign over the same in-target oracle.",
    note="Hangs that need more CPU than the budget or inputs beyond the stated bounds are out of reach. Budget is CPU time measured by the worker, never wall clock.", ref="DESIGN.md §3 C04"),
- "C05": dict(cat="exploration", technique=T+": harness-printed texts with known lexeme table; oracle = recomputed line/column, source[span]==text, marker positions of planted faults",
+ "C05": dict(cat="exploration", technique=T+": harness-printed texts with known lexeme table; oracle = recomputed line/column, source[span]==text, marker positions of planted faults"+F+"",
    text="Tokens must tile the source with recomputed line/column; every Id must carry file id and the span of its own spelling and coincide with the harness' lexeme table; primary labels of planted faults must cover the marker the planter wrote.",
    note="Column unit is free (bytes, chars or UTF-16) but must be one per file. Form feed excluded. P9999 / file-level labels exempt.", ref="DESIGN.md §3 C05"),
- "C06": dict(cat="exploration", technique=T+"+ exhaustive permutations / partitions: metamorphic oracle (same verdict, codes, location modulo placement)",
+ "C06": dict(cat="exploration", technique=T+"+ exhaustive permutations / partitions: metamorphic oracle (same verdict, codes, location modulo placement)"+F+"",
    text="Units of <= 5 declarations: all permutations, all partitions into <= 3 files x all file orders must give the canonical verdict (single-fault units: same codes and same (chunk, offset) locations); Project::semantic on fresh projects and `ironplcc check` in fresh processes sampled.",
    note="Hash seeds of child processes cannot be chosen; explicit order enumeration at analyze() is the deciding search.", ref="DESIGN.md §3 C06"),
  "C07": dict(cat="exploration", technique="exhaustive enumeration of all digraphs on <= 4 nodes + "+T+"for random graphs <= 12 nodes; oracle = reference DFS cycle test",
    text="All 66066 digraphs on <= 4 nodes and random larger ones, realised as FB instance graphs and as type graphs: recursion codes (P0010/P0013) exactly when the reference cycle test finds a cycle.",
    note="VAR_IN_OUT and ARRAY OF edges are not generated.", ref="DESIGN.md §3 C07"),
- "C08": dict(cat="exploration", technique=T+": metamorphic (canonical vs re-spelled layout of the same lexeme stream)",
+ "C08": dict(cat="exploration", technique=T+": metamorphic (canonical vs re-spelled layout of the same lexeme stream)"+F+"",
    text="Same lexeme stream laid out canonically and with random case per keyword / identifier occurrence and random trivia (blanks, tabs, LF, CRLF, comments incl. multi-line / nested-looking / non-ASCII) at every joint: equal libraries and equal analyze() codes.",
    note="Trivia never goes inside literals (IEC forbids white space there). C01 ties the canonical spelling to the expected AST.", ref="DESIGN.md §3 C08"),
- "C09": dict(cat="exploration", technique=T+"+ fixed boundary grid: text-first literal generator with exact reference evaluator",
+ "C09": dict(cat="exploration", technique=T+"+ fixed boundary grid: text-first literal generator with exact reference evaluator"+F+"",
    text="Structured literal space (integers in 4 bases with boundary magnitudes, reals, durations, dates, times, strings, addresses, booleans): accepted with exactly the reference value, or rejected when unrepresentable.",
    note="f64 reference = std's correctly rounded decimal conversion. Taste bands (year 0 / >= 10000, typed literal beyond its type's range, unit counts beyond 64 bits): reject or exact both pass.", ref="DESIGN.md §3 C09"),
- "C10": dict(cat="exploration", technique=T+": round trip parse -> render -> parse, fixed point",
+ "C10": dict(cat="exploration", technique=T+": round trip parse -> render -> parse, fixed point"+F+"",
    text="For generated programs the parser accepts: write_to_string output must parse to an equal library (and identical identifier spellings) and re-rendering must be a fixed point.",
    note="The renderer of the pinned tree is broken for 25 constructs (known_findings.json, scope own, pinned by the repository's own rendered-output tests); the strict oracle runs on the sub-language whose gates are on.", ref="DESIGN.md §3 C10"),
  "C11": dict(cat="exploration", technique="exhaustive enumeration of notification histories (<= 3/4) + "+T+"for random histories <= 40; oracle = fresh-server reference and CLI agreement",
@@ -67,7 +68,7 @@ m={
  "version":1,
  "setup_cmd":"./build.sh",
  "hooks":{"guard":"ironplc_verif","enable":"none needed: every observation point is public (path dependencies on /repo/compiler + the ironplcc binary built from the working tree)","baseline_off_cmd":"cd /repo/compiler && cargo test --workspace --no-fail-fast --offline","source_commits":[],"add_only":True},
- "engines":[{"name":"vcheck","path":"/verif/harness","serves_properties":sorted(CHECKS),"kind_free_text":"Rust harness: proptest TestRunner over choice tapes (sharded, seeded by VERIF_SEED), exhaustive enumerators, subprocess drivers for ironplcc"}],
+ "engines":[{"name":"vcheck","path":"/verif/harness","serves_properties":sorted(CHECKS),"kind_free_text":"Rust harness: proptest TestRunner over choice tapes (sharded, seeded by VERIF_SEED), exhaustive enumerators, worker processes, subprocess drivers for ironplcc, cargo-fuzz/libFuzzer targets fuzz/total (C04) and fuzz/tapes (thorough tier of C01 C02 C03 C05 C06 C08 C09 C10)"}],
  "checks":checks,
  "notes":"See DESIGN.md. known_findings.json lists genuine defects of the pinned tree (known / fixed).",
  "not_applicable":[{"property_id":p,"reason":"check not built yet (see DESIGN.md)"} for p in ALL if p not in CHECKS],
